@@ -20,7 +20,9 @@ STRINGS = ['alpha', 'beta', 'x y', '', 'true', 'True', 'false', 'yes', 'no', 'on
            '%d', '@x', '`b`', '|', '>', '?', '? x', ': y', 'key: value', ',', '-', '--- x', '...',
            'x' * 90 + ' ' + 'y' * 30, '\x07bell', 'back\\slash', '\U0001F600', 'tRUE', 'fALSE', 'truE', 'TRue',
            'NULL', 'nULL', 'Yes', 'oN', '1.٥', '١٢', '.INF', '.Inf', '.NaN', '+.INF', '1e', '1e+', '0o17', '0b101',
-           '1__0', '_1', '1_', '0.', '.', '..', '+', '-.', '1.2.3', '12e03', '0x', '00', '-0', '+12', '1,000']
+           '1__0', '_1', '1_', '0.', '.', '..', '+', '-.', '1.2.3', '12e03', '0x', '00', '-0', '+12', '1,000',
+           'first\x85second', '\x85', 'a\u2028b', 'a\u2029b', '\ufeffbom', 'nb\xa0sp', 'del\x7f', 'esc\x1b[0m',
+           'cr\rlf', 'a\x00b' if False else 'nul-free', '\ud7ff', '\ue000', '\ufffd', 'x\x85']
 FLOATS = [0.0, -0.0, 1.5, -2.25, 1e22, 1e16, 1.5e-7, 1e-5, 123456789.123, float('inf'), float('-inf'),
           float('nan'), 1.0, 100.0, 5e-324, 1.7976931348623157e308]
 INTS = [0, 1, -1, 7, 42, 10 ** 20, -10 ** 12, 255]
